@@ -171,8 +171,10 @@ func c17Profiles(tier string) []Profile {
 	faulted := Profile{Name: "pool-after-faults", Exec: OnlyOracles(c07ExecMon(1, 1, false, harness.Monitors{RefCount: true}), "refcount", "observe", "model"),
 		Budget: map[int]int{1: 0, 2: 0, 3: 1}, ShardLevel: 3,
 		Rule: "the recycling pool across failed calls: 5 initial stores x every single operation x one failing file call at every index (retried or not), then Set, Flush, full read battery, Reopen: results must be those of a store without callbacks (the model)"}
+	pers := c15Persisted("pool-from-persisted", dSingle-1, harness.CBAll)
 	return []Profile{
 		conc.Profile(2), faulted,
+		pers.Profile(fmt.Sprintf("all nine callbacks installed (recycling pool): initial state a(1), b(2) flushed and then {cached, evicted, re-opened}; every history of length <= %d over the C15 alphabet (lookups and evictions from inside key-only visits, Get whose value must stay intact, rejected items, snapshots, CopyTo, block and random visits); results equal the model, no released item is ever delivered", dSingle-1)),
 		{Name: "subsets", Exec: c17Exec(dAll, all), ShardLevel: 1, Budget: map[int]int{explore.ClassRand: 1}, Rule: fmt.Sprintf("all 512 subsets of {BeforeItemWrite, AfterItemRead, ItemAlloc, ItemAddRef, ItemDecRef, ItemValLength, ItemValWrite (two chunks), ItemValRead (two chunks), KeyCompareForCollection} x every history of length <= %d over Set/Delete/GetItem/MinItem/visit/Evict/SetCollection(y, reverse)/Flush/Reopen/FlushRevert/CopyTo; whenever ItemAlloc, ItemAddRef and ItemDecRef are all installed they implement a recycling pool (an item whose count reaches zero is scrubbed); oracles of C01 (model), C02 (copy re-opens to the durable state), C09 (file monitor), C14 (independent decoder) all on, plus: the observation log equals that of the same history run without callbacks", dAll)},
 		{Name: "singles", Exec: c17Exec(dSingle, singles), ShardLevel: 2, Budget: map[int]int{explore.ClassRand: 1}, Rule: fmt.Sprintf("the empty set, the 9 singletons and the full set x every history of length <= %d, same oracles", dSingle)},
 	}
